@@ -38,6 +38,11 @@ struct hv_shm {
 };
 
 struct hv_ctx HV;
+#include <pthread.h>
+/* the reporting API may be called from harness threads (C17): one recursive lock around every entry point that touches shared state */
+static pthread_mutex_t hv_mx = PTHREAD_RECURSIVE_MUTEX_INITIALIZER_NP;
+#define hv_lock() pthread_mutex_lock(&hv_mx)
+#define hv_unlock() pthread_mutex_unlock(&hv_mx)
 static struct hv_shm *S;
 static int out_fd = -1, err_fd = -1;
 static char err_path[4096];
@@ -142,9 +147,10 @@ void hv_viol(const char *key, const char *fmt, ...)
 {
   char detail[4096]; va_list ap;
   va_start(ap, fmt); vsnprintf(detail, sizeof detail, fmt, ap); va_end(ap);
+  hv_lock();
   S->nviol_case++;
   hv_stat("oracle_violations", 1);
-  if (S->nviol_case > MAX_VIOL_PER_CASE) return;
+  if (S->nviol_case > MAX_VIOL_PER_CASE) { hv_unlock(); return; }
   struct hv_str b; hv_str_init(&b);
   hv_str_add(&b, "{\"t\":\"viol\",\"case\":%llu,\"key\":\"", (unsigned long long)S->cur_case);
   json_escape(&b, key, strlen(key));
@@ -154,8 +160,9 @@ void hv_viol(const char *key, const char *fmt, ...)
   add_desc(&b, 24000);
   hv_str_add(&b, "}");
   emit(&b); hv_str_free(&b);
+  hv_unlock();
 }
-int hv_viol_count(void) { return S->nviol_case; }
+int hv_viol_count(void) { hv_lock(); int n = S->nviol_case; hv_unlock(); return n; }
 
 void hv_fail(const char *fmt, ...)
 {
@@ -191,27 +198,31 @@ static int stat_slot(const char *name, int ismax)
   cache[c].p = name; cache[c].slot = i;
   return i;
 }
-void hv_stat(const char *name, uint64_t add) { int i = stat_slot(name, 0); if (i >= 0) S->stats[i].v += add; }
-void hv_max(const char *name, uint64_t v) { int i = stat_slot(name, 1); if (i >= 0 && S->stats[i].v < v) S->stats[i].v = v; }
+void hv_stat(const char *name, uint64_t add) { hv_lock(); int i = stat_slot(name, 0); if (i >= 0) S->stats[i].v += add; hv_unlock(); }
+void hv_max(const char *name, uint64_t v) { hv_lock(); int i = stat_slot(name, 1); if (i >= 0 && S->stats[i].v < v) S->stats[i].v = v; hv_unlock(); }
 
 void hv_distinct(uint64_t cls, uint64_t h)
 {
   if (!h) h = 1;
   uint64_t k = hv_hash_u64(cls, h) & (DCAP - 1);
+  hv_lock();
   for (unsigned probe = 0; probe < 64; probe++, k = (k + 1) & (DCAP - 1)) {
     if (S->dset[k].h == 0) {
-      if (S->dn >= DCAP / 2) return;
+      if (S->dn >= DCAP / 2) break;
       S->dset[k].cls = cls; S->dset[k].h = h; S->dn++;
-      return;
+      break;
     }
-    if (S->dset[k].h == h && S->dset[k].cls == cls) return;
+    if (S->dset[k].h == h && S->dset[k].cls == cls) break;
   }
+  hv_unlock();
 }
 
 void hv_sample(const char *fmt, ...)
 {
-  if (S->nsamples >= MAX_SAMPLES) return;
+  hv_lock();
+  if (S->nsamples >= MAX_SAMPLES) { hv_unlock(); return; }
   S->nsamples++;
+  hv_unlock();
   char detail[2048]; va_list ap;
   va_start(ap, fmt); vsnprintf(detail, sizeof detail, fmt, ap); va_end(ap);
   struct hv_str b; hv_str_init(&b);
@@ -226,18 +237,22 @@ const char *hv_desc_get(void) { return S->desc; }
 void hv_desc(const char *fmt, ...)
 {
   va_list ap;
+  hv_lock();
   size_t room = DESC_MAX - 1 - S->desc_len;
-  if (room < 2) return;
+  if (room < 2) { hv_unlock(); return; }
   va_start(ap, fmt);
   int n = vsnprintf(S->desc + S->desc_len, room, fmt, ap);
   va_end(ap);
-  if (n < 0) return;
+  if (n < 0) { hv_unlock(); return; }
   S->desc_len += ((size_t)n < room) ? (size_t)n : room - 1;
   if (HV.verbose > 1) { fputs(S->desc + S->desc_len - (((size_t)n < room) ? (size_t)n : room - 1), stdout); fflush(stdout); }
+  hv_unlock();
 }
 void hv_ctxkey(const char *fmt, ...)
 {
+  hv_lock();
   va_list ap; va_start(ap, fmt); vsnprintf(S->ctxkey, sizeof S->ctxkey, fmt, ap); va_end(ap);
+  hv_unlock();
 }
 
 void hv_leak_check(void)
